@@ -448,8 +448,11 @@ func init() {
 					case strings.HasSuffix(nm, ".getSnapshot") || strings.HasSuffix(nm, ".GetSnapshot"):
 						evs = append(evs, ev{x.Pos(), "snapshot"})
 					case strings.HasSuffix(nm, ".findValuesByRegexp") || strings.HasSuffix(nm, ".findValuesByLikeFormMem") ||
-						strings.HasSuffix(nm, ".findSeriesIDsByKeyFromMem") || strings.HasSuffix(nm, ".loadSeriesIDsInMem"):
+						strings.HasSuffix(nm, ".findSeriesIDsByKeyFromMem") || strings.HasSuffix(nm, ".loadSeriesIDsInMem") ||
+						strings.HasSuffix(nm, ".getValuesFromMem") || nm == "collect" || nm == "suggest":
 						evs = append(evs, ev{x.Pos(), "memory"})
+					case strings.HasSuffix(nm, ".getGroupingScanners"):
+						evs = append(evs, ev{x.Pos(), "scanners"})
 					case nm == "verifhook.Yield":
 						evs = append(evs, ev{x.Pos(), "yield"})
 					}
@@ -485,7 +488,11 @@ func init() {
 					return fmt.Errorf("%s.%s not found", rn[0], rn[1])
 				}
 				l, mf := readOrder(fd)
-				lists = append(lists, rn[1]+": "+strings.Join(l, " "))
+				line := rn[1] + ": " + strings.Join(l, " ")
+				if !strings.HasPrefix(lean, "dictScan") && lean != "inv" && lean != "fwd" {
+					line = strings.ReplaceAll(line, " yield", "") // the same list with and without the hook line
+				}
+				lists = append(lists, line)
 				all = all && mf
 			}
 			sb.WriteString("def " + lean + "Order : List String := " + LeanStrList(lists) + "\n")
@@ -501,6 +508,40 @@ func init() {
 		}
 		if err := memFirstAll([][2]string{{"forwardIndex", "findSeriesIDsForTag"}}, mid, "fwd"); err != nil {
 			return "", err
+		}
+		if err := memFirstAll([][2]string{{"indexKVStore", "GetValues"}}, ks, "values"); err != nil {
+			return "", err
+		}
+		if err := memFirstAll([][2]string{{"indexKVStore", "CollectKVs"}}, ks, "collect"); err != nil {
+			return "", err
+		}
+		if err := memFirstAll([][2]string{{"indexKVStore", "Suggest"}}, ks, "suggest"); err != nil {
+			return "", err
+		}
+		if err := memFirstAll([][2]string{{"invertedIndex", "getSeriesIDs"}}, mid, "invGet"); err != nil {
+			return "", err
+		}
+		{
+			// GetGroupingContext hands its snapshot (if it takes one) to getGroupingScanners, which reads the
+			// memory tables and then the files
+			g1 := FindFunc(mid, "forwardIndex", "GetGroupingContext")
+			g2 := FindFunc(mid, "forwardIndex", "getGroupingScanners")
+			if g1 == nil || g2 == nil {
+				return "", fmt.Errorf("forwardIndex.GetGroupingContext / getGroupingScanners not found")
+			}
+			l1, _ := readOrder(g1)
+			l2, mf2 := readOrder(g2)
+			outerSnapFirst := false
+			for _, e := range l1 {
+				if e == "snapshot" {
+					outerSnapFirst = true
+				}
+				if e == "scanners" {
+					break
+				}
+			}
+			sb.WriteString("def groupingOrder : List String := " + LeanStrList([]string{strings.ReplaceAll("GetGroupingContext: "+strings.Join(l1, " "), " yield", ""), strings.ReplaceAll("getGroupingScanners: "+strings.Join(l2, " "), " yield", "")}) + "\n")
+			sb.WriteString("def groupingMemFirst : Bool := " + c10Bool(!outerSnapFirst && mf2) + "\n")
 		}
 		sb.WriteString("\n")
 
